@@ -20,6 +20,7 @@ R15f PHS typestate: isTransformUpToDate_ becomes true only after transformation 
 R15g unit-ball draws: uniformInBall scales a unit-sphere direction by r * uniformReal(0,1)^(1/n); uniformProlateHyperspheroid feeds
      uniformInBall(1, .) and the surface variant uniformNormalVector(.) through ProlateHyperspheroid::transform
 """
+import re
 from engine import facts, sym, paths, lin
 from engine.facts import AnalysisBroken, src
 from engine.shape import key, args
@@ -708,6 +709,28 @@ def r15g(rep, F):
                 '%s then transform' % first if ok else 'calls are %s' % seq)
 
 
+def r15h(rep, F):
+    rep.rule('R15h', 'erase-while-iterating in the informed samplers: in every loop whose body re-assigns its iterator from '
+                     'container.erase(iterator), each path through one iteration advances the iterator exactly once -- by the '
+                     'erase or by ++, never both (a for-loop\'s own increment counts).  In updatePhsDefinitions a skipped entry is a '
+                     'hyperspheroid that keeps its previous, larger diameter: states with a cost above the bound are returned')
+    from engine.shape import erase_loops, erase_loop_verdict
+    n = 0
+    for f in F.functions:
+        if '/samplers/informed/' not in f.file and 'ProlateHyperspheroid' not in f.file:
+            continue
+        seen = set()
+        for lp, itkey, x in erase_loops(f):
+            if lp['id'] in seen:
+                continue
+            seen.add(lp['id'])
+            n += 1
+            why = erase_loop_verdict(f, lp, itkey)
+            rep.add('R15h', f.name, 'iterator-advances-once[%s]' % re.sub(r'#\d+', '', itkey), why is None, f.where(x), why or
+                    'every path through the loop body advances the iterator exactly once')
+    rep.require_count('R15h', 'erase-while-iterating loops', n, 1)
+
+
 def run(rep):
     F = facts.load_units(UNITS)
     rep.units.update(UNITS)
@@ -720,6 +743,7 @@ def run(rep):
     r15e(rep, F)
     r15f(rep, F)
     r15g(rep, F)
+    r15h(rep, F)
     rep.undecided('R15x', PHS + '::updateRotation', 'rotation', 'that the SVD solution of the Wahba problem is a rotation taking the first axis '
                   'to the focal axis is linear algebra; not decided')
     rep.undecided('R15x', 'ompl::RNG::uniformProlateHyperspheroid', 'uniformity', 'uniform density over the hyperspheroid is a statement about '
